@@ -82,10 +82,22 @@ def has_diamond(ir):
 _generic0 = generic
 
 
+def cfg_read_as_call_arg(ir):
+    """a configuration field is passed (by reference) as a numeric call argument"""
+    for _, s in irutil.all_stmts(ir):
+        if isinstance(s, LoopIR.Call):
+            for fa, a in zip(s.f.args, s.args):
+                if fa.type.is_numeric() and isinstance(a, LoopIR.ReadConfig):
+                    return True
+    return False
+
+
 def generic(op, old_ir, new_ir, call):  # noqa: F811
     d = _generic0(op, old_ir, new_ir, call) or {}
     if has_diamond(old_ir):
         d["shared_stmt_objects"] = True
+    if cfg_read_as_call_arg(old_ir):
+        d["cfg_read_as_call_arg"] = True
     return d
 
 
@@ -115,6 +127,17 @@ def _assign_targets(stmts, cls):
     for _, s in irutil._iter_block(list(stmts), (), "body"):
         if isinstance(s, cls):
             out.add(s.name)
+        elif isinstance(s, LoopIR.Call):
+            # buffers handed to a callee that assigns / reduces into the parameter
+            wr = set()
+            for _, cs in irutil.all_stmts(s.f):
+                if isinstance(cs, cls):
+                    wr.add(cs.name)
+                elif isinstance(cs, LoopIR.Call):
+                    wr |= {fa.name for fa in s.f.args}  # nested calls: be conservative
+            for fa, a in zip(s.f.args, s.args):
+                if fa.type.is_numeric() and fa.name in wr and isinstance(a, (LoopIR.Read, LoopIR.WindowExpr)):
+                    out.add(a.name)
     return out
 
 
@@ -156,6 +179,10 @@ def d_autofission(old_ir, new_ir, call):
             d["fission_rejects"] = type(e).__name__
     finally:
         hooks.REC.enabled = True
+    try:
+        d.update(d_fission(old_ir, new_ir, call))
+    except Exception:
+        pass
     return d
 
 
@@ -175,4 +202,34 @@ def d_stage_mem(old_ir, new_ir, call):
                 if isinstance(sub, (LoopIR.Read, LoopIR.WindowExpr)) and str(sub.name) == buf_name:
                     reads.add("r")
     slice_window = any(isinstance(w, tuple) for w in w_exprs)
-    return {"block_writes_never_reads": bool(writes) and not reads, "slice_window": slice_window, "accum": bool(call.kwargs.get("accum"))}
+    # shape of the rewrite: was a load nest / a store nest emitted for the staging buffer?
+    new_name = call.kwargs.get("new_buf_name")
+    load = store = False
+    for _, s in irutil.all_stmts(new_ir):
+        if isinstance(s, (LoopIR.Assign, LoopIR.Reduce)) and isinstance(s.rhs, LoopIR.Read):
+            if str(s.name) == new_name and str(s.rhs.name) == buf_name:
+                load = True
+            if str(s.name) == buf_name and str(s.rhs.name) == new_name:
+                store = True
+    return {
+        "block_writes_never_reads": bool(writes) and not reads,
+        "slice_window": slice_window,
+        "accum": bool(call.kwargs.get("accum")),
+        "load_emitted": load,
+        "store_emitted": store,
+    }
+
+
+def binder_kind(ir, sym_repr):
+    """what declares the symbol whose repr() is sym_repr: 'arg' | 'alloc' | 'winstmt' | 'iter' | None"""
+    for a in ir.args:
+        if repr(a.name) == sym_repr:
+            return "arg"
+    for _, s in irutil.all_stmts(ir):
+        if isinstance(s, LoopIR.Alloc) and repr(s.name) == sym_repr:
+            return "alloc"
+        if isinstance(s, LoopIR.WindowStmt) and repr(s.name) == sym_repr:
+            return "winstmt"
+        if isinstance(s, LoopIR.For) and repr(s.iter) == sym_repr:
+            return "iter"
+    return None
